@@ -30,7 +30,7 @@ import (
 func init() {
 	core.Register(&core.Property{
 		ID:   "C15",
-		Rule: "(a) string literals built from pieces over {plain ASCII, space, 2/3/4-byte code points, combining mark, unescaped \" ` /} and every FHIRPath escape (\\' \\\" \\` \\\\ \\/ \\f \\n \\r \\t \\uXXXX), length 0..10, decoded by an independent decoder; (b) Integer/Decimal literals with leading/trailing zeros up to 30 digits; (c) Date/DateTime/Time literals over every precision x fraction digits 0..6 x {none,Z,+05:30,-11:00}: value denoted, canonical string re-parses to an equal value, hidden state probed with `=`; (d) System <-> FHIR proto conversions (ToProto*, system.From) on those values and on generated proto elements; (e) internal/fhir Parse* after fhirconv *ToString on generated Date/DateTime/Instant/Time elements of every precision enum and offset, compared with jsonformat's rendering; (f) narrow.ToInteger / fhirconv.ToInteger over all 11x11 integer type pairs with exhaustive 8/16-bit and boundary 32/64-bit values vs math/big. distinct_nontrivial = distinct cases whose representation is not the identity (escapes present, fraction/offset present, narrowing across width or signedness)",
+		Rule: "(a) string literals built from pieces over {plain ASCII, space, 2/3/4-byte code points, combining mark, unescaped \" ` /} and every FHIRPath escape (\\' \\\" \\` \\\\ \\/ \\f \\n \\r \\t \\uXXXX), length 0..10, decoded by an independent decoder; (b) Integer/Decimal literals with leading/trailing zeros up to 30 digits; (c) Date/DateTime/Time literals over every precision x fraction digits 0..6 x {none,Z,+05:30,-11:00}: value denoted, canonical string re-parses to an equal value, hidden state probed with `=`; (d) System <-> FHIR proto conversions (ToProto*, system.From) on those values and on generated proto elements; (e) internal/fhir Parse* after fhirconv *ToString on generated Date/DateTime/Instant/Time elements of every precision enum and offset, compared with jsonformat's rendering; (f) narrow.ToInteger / fhirconv.ToInteger over all 11x11 integer type pairs with exhaustive 8/16-bit and boundary 32/64-bit values vs math/big. elements finer than their precision, precision of offset-less DateTimes, digit strings around 2^31..10^20, leading zeros, the IntegerFrom* constructors; distinct_nontrivial = distinct cases whose representation is not the identity (escapes present, fraction/offset present, narrowing across width or signedness)",
 		Assumptions: []string{"System DateTime/Time carry at most milliseconds: literal fractions beyond 3 digits may be truncated",
 			"DateTime hour/minute precision and offset-less times are not representable in the FHIR protos: skipped for the System->proto direction"},
 		Run:    runC15,
